@@ -10,6 +10,18 @@ open SalsaVerif.Model.CoreSpec
 
 /-! ### the old memo -/
 
+/-- the shape of a recorded value: what `Wf2B` constrains continuations on -/
+def ObsShape (o : Obs) : Prop :=
+  match o.dep with
+  | .qry q => ∀ c, o.val.h = some c → c ≤ q
+  | _ => o.val.h = none
+
+def ShapeOk (l : List Obs) : Prop := ∀ o, o ∈ l → o.out = false → ObsShape o
+
+theorem shapeOk_tail {o : Obs} {l : List Obs} (h : ShapeOk (o :: l)) : ShapeOk l :=
+  fun o' ho' => h o' (List.mem_cons_of_mem _ ho')
+
+
 /-- the level of the reads before the `create` of the old execution -/
 def PLof (s : State) (r : Nat) (mo : Memo) (Ro : SemRes) : Nat :=
   match Ro.ts with
@@ -20,18 +32,22 @@ def PLof (s : State) (r : Nat) (mo : Memo) (Ro : SemRes) : Nat :=
     | none => max (match s.slots r with | some sl => sl.dur | none => 0) mo.dur
 
 /-- the old memo `mo` of node `r` (replay `Ro`, prefix level `PL`) and the records of `r` in `s` -/
-structure OldF (P : Prog) (idOf : Nat → Nat) (s : State) (r : Nat) (mo : Memo) (Ro : SemRes) (PL : Nat) : Prop where
+structure OldF (P : Prog) (idOf : Nat → Nat) (NB0 : Prop) (s : State) (r : Nat) (mo : Memo) (Ro : SemRes)
+    (PL : Nat) : Prop where
   memo : s.memos r = some mo
   rep : replayR r idOf (P.node r) mo.obs none none = some Ro
   durPL : mo.dur ≤ PL
   PL3 : PL ≤ 3
   tsSome : mo.ts.isSome = Ro.ts.isSome
+  shape : ShapeOk mo.obs
+  kid : ∀ k v, Ro.ts = some (k, v) → k = idOf r
   tnone : Ro.ts = none → s.slots r = none ∧ s.smemos r = none
   tsome : ∀ k v, Ro.ts = some (k, v) →
     ∃ sl, s.slots r = some sl ∧ sl.k = k ∧ sl.v = v ∧ sl.fca ≤ mo.va ∧ sl.dur ≤ PL
   asg : ∀ w, Ro.ts ≠ none → Ro.sp = some w → ∃ A, s.smemos r = some A ∧ A.origin = some r ∧
-    A.value = ⟨w, none⟩ ∧ A.dur = PL ∧ A.ca ≤ mo.va ∧
-    ∀ w' d, (w', d) ∈ s.wlog → A.dur ≤ d → mo.va < w' → A.va < w'
+    A.value = ⟨w, none⟩ ∧ A.dur = PL ∧ A.ca ≤ mo.va
+  /-- (only when `r` was not busy at the start) -/
+  aord : NB0 → AOrd s r mo Ro
   stale : Ro.ts ≠ none → Ro.sp = none → ∀ A, s.smemos r = some A → A.origin ≠ none →
     Wit s A.dur A.va mo.va
   /-- a `Derived` memo of `spec(struct of r)`: its level is below the prefix level, or it is stale -/
@@ -39,13 +55,17 @@ structure OldF (P : Prog) (idOf : Nat → Nat) (s : State) (r : Nat) (mo : Memo)
 
 theorem oldF_of_tie {P idOf s r mo Ro} (hI : Inv P idOf s) (hm : s.memos r = some mo)
     (hR : replayR r idOf (P.node r) mo.obs none none = some Ro)
-    (htie : TieOk s r mo Ro (preOf idOf (P.node r) mo.obs)) :
-    OldF P idOf s r mo Ro (PLof s r mo Ro) ∧
+    (htie : TieOk s r mo Ro (preOf idOf (P.node r) mo.obs)) {NB0 : Prop} (hao : NB0 → AOrd s r mo Ro)
+    (hsh : ShapeOk mo.obs) :
+    OldF P idOf NB0 s r mo Ro (PLof s r mo Ro) ∧
     PreAt s mo.va (PLof s r mo Ro) (preOf idOf (P.node r) mo.obs) := by
   have ok := hI.node r mo hm
   have hts : mo.ts.isSome = Ro.ts.isSome := by
     obtain ⟨R, h1, _, h3, _⟩ := ok.rep
     rw [hR] at h1; cases h1; exact h3
+  have hkid : ∀ k v, Ro.ts = some (k, v) → k = idOf r := by
+    obtain ⟨R, h1, _, _, h4, _⟩ := ok.rep
+    rw [hR] at h1; cases h1; exact h4
   unfold TieOk at htie
   cases hro : Ro.ts with
   | none =>
@@ -53,7 +73,7 @@ theorem oldF_of_tie {P idOf s r mo Ro} (hI : Inv P idOf s) (hm : s.memos r = som
     simp only at htie
     have hPL : PLof s r mo Ro = mo.dur := by simp [PLof, hro]
     rw [hPL]
-    refine ⟨⟨hm, hR, Nat.le_refl _, ok.obs.dur3, hts, fun _ => htie, ?_, ?_, ?_, ?_⟩, ?_⟩
+    refine ⟨⟨hm, hR, Nat.le_refl _, ok.obs.dur3, hts, hsh, hkid, fun _ => htie, ?_, ?_, hao, ?_, ?_⟩, ?_⟩
     · intro k v h; rw [hro] at h; cases h
     · intro w h; exact absurd hro h
     · intro h; exact absurd hro h
@@ -83,23 +103,23 @@ theorem oldF_of_tie {P idOf s r mo Ro} (hI : Inv P idOf s) (hm : s.memos r = som
     cases hsp : Ro.sp with
     | some w =>
       rw [hsp] at h5
-      obtain ⟨A, hA, g1, g2, g3, g4, g5, g6, x1, x2⟩ := h5
+      obtain ⟨A, hA, g1, g2, g3, g4, g5, g6, x1⟩ := h5
       have hPL : PLof s r mo Ro = A.dur := by simp [PLof, hro, hsp, hA]
       rw [hPL]
       have hA3 := (specOk_bounds (hI.smemo r A hA)).2.2.2
-      refine ⟨⟨hm, hR, g4, hA3, hts, hnn, ?_, ?_, ?_, drv _ g5⟩, g6⟩
+      refine ⟨⟨hm, hR, g4, hA3, hts, hsh, hkid, hnn, ?_, ?_, hao, ?_, drv _ g5⟩, g6⟩
       · intro k' v' h; rw [hro] at h; cases h; exact ⟨sl, h1, h2, h3, h4, g5⟩
-      · intro w' _ h; cases h; exact ⟨A, hA, g1, g2, rfl, x1, x2⟩
-      · intro _ h; cases h
+      · intro w' _ h; rw [hsp] at h; cases h; exact ⟨A, hA, g1, g2, rfl, x1⟩
+      · intro _ h; rw [hsp] at h; cases h
     | none =>
       rw [hsp] at h5
       obtain ⟨g1, g2⟩ := h5
       have hPL : PLof s r mo Ro = max sl.dur mo.dur := by simp [PLof, hro, hsp, h1]
       rw [hPL]
-      refine ⟨⟨hm, hR, Nat.le_max_right _ _, Nat.max_le.mpr ⟨hsl3, ok.obs.dur3⟩, hts, hnn, ?_, ?_, ?_,
+      refine ⟨⟨hm, hR, Nat.le_max_right _ _, Nat.max_le.mpr ⟨hsl3, ok.obs.dur3⟩, hts, hsh, hkid, hnn, ?_, ?_, hao, ?_,
         drv _ (Nat.le_max_left _ _)⟩, g2⟩
       · intro k' v' h; rw [hro] at h; cases h; exact ⟨sl, h1, h2, h3, h4, Nat.le_max_left _ _⟩
-      · intro w' _ h; cases h
+      · intro w' _ h; rw [hsp] at h; cases h
       · intro _ _ A hA ho; exact g1 A hA ho
 
 /-- the records of `r` are those of `s` -/
@@ -113,12 +133,13 @@ structure SameR (r : Nat) (s t : State) : Prop where
 theorem sameR_of_ext {r s t} (h : Ext s t r) : SameR r s t :=
   ⟨h.above_m r (Nat.le_refl _), h.above_s r (Nat.le_refl _), h.above_sm r (Nat.le_refl _), h.wlog, h.cur⟩
 
-theorem OldF.same {P idOf s t r mo Ro PL} (h : OldF P idOf s r mo Ro PL) (e : SameR r s t) :
-    OldF P idOf t r mo Ro PL := by
-  refine ⟨by rw [e.memos]; exact h.memo, h.rep, h.durPL, h.PL3, h.tsSome, ?_, ?_, ?_, ?_, ?_⟩
+theorem OldF.same {P idOf NB0 s t r mo Ro PL} (h : OldF P idOf NB0 s r mo Ro PL) (e : SameR r s t) :
+    OldF P idOf NB0 t r mo Ro PL := by
+  refine ⟨by rw [e.memos]; exact h.memo, h.rep, h.durPL, h.PL3, h.tsSome, h.shape, h.kid, ?_, ?_, ?_, ?_, ?_, ?_⟩
   · intro a; rw [e.slots, e.smemos]; exact h.tnone a
   · intro k v a; rw [e.slots]; exact h.tsome k v a
-  · intro w a b; rw [e.smemos, e.wlog]; exact h.asg w a b
+  · intro w a b; rw [e.smemos]; exact h.asg w a b
+  · intro hn; unfold AOrd; rw [e.smemos, e.wlog]; exact h.aord hn
   · intro a b A hA; rw [e.smemos] at hA; simp only [Wit, e.wlog]; exact h.stale a b A hA
   · intro D hD; rw [e.smemos] at hD; simp only [Wit, e.wlog]; exact h.drv D hD
 
